@@ -208,7 +208,7 @@ def own_definition(ctx: Ctx, full_name: str, major: int, minor: int, root: str =
             name = dotted(e.func) or ""
             if name == "open" or name.split(".")[-1] in ("read_text", "read_bytes") or (name.split(".")[-1] == "parse" and name.split(".")[0] not in f.env):
                 CONTENT_ACCESS.append("%s during the construction of %s" % (name, full_name))
-                return Sym(read=lambda: "TEXT", __enter__=lambda: None)
+                return Sym(read=lambda: "TEXT", __enter__=lambda: None, close=lambda: None)
         return base(e, f)
 
     try:
@@ -244,6 +244,9 @@ def read_own(ctx: Ctx, d: Any, lookups: List[Any], times: int = 1, parse_fails: 
 
         def __exit__(self, *a: Any) -> None:
             return None
+
+        def close(self) -> None:
+            return None  # (closing by hand in a `finally` instead of a `with` block)
 
     base = _hook(ctx, cls.module, [])
 
